@@ -6,6 +6,7 @@ def handle (line : String) : String :=
   | "k" :: rest => handleKernel rest
   | "kr" :: rest => handleKernelRat rest
   | "spec" :: rest => handleSpec rest
+  | "specdefaults" :: rest => handleSpecDefaults rest
   | "ping" :: _ => "pong"
   | _ => "bad-op"
 
